@@ -53,7 +53,7 @@ class Check(BaseCheck):
         fails = []
         n, size = (30, "small") if self.quick else (500, "large")
         rng = gen.rng_for(self.seed, "c13")
-        for c in itertools.chain(gen.int_cases(), gen.big_cases(self.seed, not self.quick), gen.tria_stream(self.seed + 51, n, size)):
+        for c in itertools.chain(gen.int_cases(), gen.big_cases(self.seed, False), gen.tria_stream(self.seed + 51, n, size)):
             v, t = c["v"], c["t"]
             if len(np.unique(t)) != len(v):
                 continue
